@@ -99,7 +99,7 @@ def _random_job(k):
     Ftot = F.reshape(-1, 3).sum(axis=0)
     fs = float(np.max(np.abs(F))) * F.size
     for name, tot in (("LoadTransfer", loads[:, :3].sum(axis=0)), ("MeshPointForces", mpf.reshape(-1, 3).sum(axis=0))):
-        if np.max(np.abs(tot - Ftot)) > 1e-11 * fs:
+        if not (np.max(np.abs(tot - Ftot)) <= 1e-11 * fs):
             bad.append("random:%s:force" % name)
     L = float(np.max(np.abs(mesh)))
     for P in (rng.normal(0, L, 3), rng.normal(0, 10 * L, 3)):
@@ -107,9 +107,9 @@ def _random_job(k):
         Mn = (loads[:, 3:] + np.cross(s - P, loads[:, :3])).sum(axis=0)
         Mm = np.cross(mesh - P, mpf).reshape(-1, 3).sum(axis=0)
         ms = fs * (L + float(np.linalg.norm(P)))
-        if np.max(np.abs(Mn - Mp)) > 1e-11 * ms:
+        if not (np.max(np.abs(Mn - Mp)) <= 1e-11 * ms):
             bad.append("random:LoadTransfer:moment")
-        if np.max(np.abs(Mm - Mp)) > 1e-11 * ms:
+        if not (np.max(np.abs(Mm - Mp)) <= 1e-11 * ms):
             bad.append("random:MeshPointForces:moment")
     # displacement transfer (group = transformation matrix + transfer), undeformed mesh `mesh`
     nodes = s
@@ -121,7 +121,7 @@ def _random_job(k):
     d = np.zeros((ny, 6))
     d[:, :3] = u
     t = run_comp(grp if False else DisplacementTransferGroup(surface=surf), {"mesh": mesh, "nodes": nodes, "disp": d}, ["def_mesh"])["def_mesh"]
-    if np.max(np.abs(t - (mesh + u))) > 1e-13 * L:
+    if not (np.max(np.abs(t - (mesh + u))) <= 1e-13 * L):
         bad.append("random:DisplacementTransfer:translation")
     # rotations act to first order as a rigid rotation of each chordwise section about its structural node
     th = rng.normal(0, 1.0, size=(ny, 3))
@@ -130,7 +130,7 @@ def _random_job(k):
     d[:, 3:] = eps * th
     r = run_comp(DisplacementTransferGroup(surface=surf), {"mesh": mesh, "nodes": nodes, "disp": d}, ["def_mesh"])["def_mesh"]
     pred = mesh + eps * np.cross(th[None, :, :], mesh - nodes[None, :, :])
-    if np.max(np.abs(r - pred)) > 10 * eps**2 * L * float(np.max(np.abs(th))) ** 2 + 1e-15 * L:
+    if not (np.max(np.abs(r - pred)) <= 10 * eps**2 * L * float(np.max(np.abs(th))) ** 2 + 1e-15 * L):
         bad.append("random:DisplacementTransfer:rotation_first_order")
     return {"k": k, "bad": bad, "case": {"nx": nx, "ny": ny, "shape": shape, "w2": w2, "wingbox": wingbox}}
 
